@@ -3,7 +3,7 @@
 # itself), run the quick check of its property (and of the properties listed in meta "also") against that worktree,
 # undo; appends one line per run to seeded/MATRIX.txt.  Scratch: /tmp/mxrepo (removed at the end).
 cd /verif || exit 2
-names="$@"; [ -z "$names" ] && names=$(ls seeded | grep -E '^(C[0-9]+[ab]|fixrev_)')
+names="$@"; [ -z "$names" ] && names=$(ls seeded | grep -E '^(C[0-9]+[a-z]|fixrev_)')
 rm -rf /tmp/mxrepo; git -C /repo worktree prune; git -C /repo worktree add -q --detach /tmp/mxrepo HEAD || exit 2
 export XEOFS_REPO=/tmp/mxrepo VERIF_WORK=/tmp/mx_work VERIF_EVIDENCE_DIR=/tmp/mx_evid VERIF_REPLAYS_DIR=/tmp/mx_replays
 for n in $names; do
